@@ -74,6 +74,22 @@ pub mod stdspec {
         ensures r == (a@ == b@)
     { admit(); }
 
+    // `==` AND `!=` between octet slices and Vecs in the combinations std implements (alloc::vec::partial_eq, element-wise). `!=` is
+    // the provided method PartialEq::ne, which vstd specifies through eq_spec / obeys_eq_spec of the implementation: stating those
+    // covers both operators, so that `a != b` and `!(a == b)` mean the same to the verifier (harmless-change h3-02)
+    pub broadcast proof fn axiom_eq_slice_vec(a: &[u8], b: &Vec<u8>)
+        ensures #[trigger] <&[u8] as vstd::std_specs::cmp::PartialEqSpec<Vec<u8>>>::eq_spec(&a, b) == (a@ == b@) { admit(); }
+    pub broadcast proof fn axiom_obeys_slice_vec()
+        ensures #[trigger] <&[u8] as vstd::std_specs::cmp::PartialEqSpec<Vec<u8>>>::obeys_eq_spec() { admit(); }
+    pub broadcast proof fn axiom_eq_vec_slice(a: &Vec<u8>, b: &[u8])
+        ensures #[trigger] <Vec<u8> as vstd::std_specs::cmp::PartialEqSpec<&[u8]>>::eq_spec(a, &b) == (a@ == b@) { admit(); }
+    pub broadcast proof fn axiom_obeys_vec_slice()
+        ensures #[trigger] <Vec<u8> as vstd::std_specs::cmp::PartialEqSpec<&[u8]>>::obeys_eq_spec() { admit(); }
+    pub broadcast proof fn axiom_eq_vec_vec(a: &Vec<u8>, b: &Vec<u8>)
+        ensures #[trigger] <Vec<u8> as vstd::std_specs::cmp::PartialEqSpec<Vec<u8>>>::eq_spec(a, b) == (a@ == b@) { admit(); }
+    pub broadcast proof fn axiom_obeys_vec_vec()
+        ensures #[trigger] <Vec<u8> as vstd::std_specs::cmp::PartialEqSpec<Vec<u8>>>::obeys_eq_spec() { admit(); }
+
     // `==` on core::cmp::Ordering (derived PartialEq: structural)
     pub assume_specification [<core::cmp::Ordering as PartialEq>::eq] (a: &core::cmp::Ordering, b: &core::cmp::Ordering) -> (r: bool)
         ensures r == (*a == *b);
@@ -93,5 +109,6 @@ pub mod stdspec {
         axiom_cloned_u8,
         axiom_slice_ref_eq,
         axiom_slice_vec_eq,
+        axiom_eq_slice_vec, axiom_obeys_slice_vec, axiom_eq_vec_slice, axiom_obeys_vec_slice, axiom_eq_vec_vec, axiom_obeys_vec_vec,
     }
 }
